@@ -73,6 +73,8 @@ ASSUMPTIONS = [
 EXTRA_COVERAGE = {}
 
 BFG = os.path.join(core.VENV_BIN, 'bfg9000')
+# steps run by real tools (cp, gzip): no stub record of what they read
+NOT_RECORDED = ('copy', 'copy_default', 'copy_files', 'man', 'man_plain')
 NINEK = os.path.join(core.VENV_BIN, '9k')
 
 
@@ -252,7 +254,7 @@ def enc_match(exp, got):
     return type(exp) is type(got) and exp == got
 
 
-def how_misplaced(out, got_path):
+def how_misplaced(out, got_path, script_dir=None):
     """Classify a wrong path: did it resolve as if written in the root script?
     out: the modelled output ({'exact', 'asroot'} or {'under', ...})."""
     if got_path is None:
@@ -261,7 +263,14 @@ def how_misplaced(out, got_path):
     if asroot is not None and asroot != out.get('exact') and \
        posixpath.normpath(asroot) == posixpath.normpath(got_path):
         return 'resolved-against-root'
+    if script_dir and out.get('exact') is not None and \
+       posixpath.normpath(got_path) == join_norm(script_dir, out['exact']):
+        return 'script-directory-applied-twice'
     return 'elsewhere'
+
+
+def join_norm(a, b):
+    return posixpath.normpath(posixpath.join(a, b))
 
 
 def culprit_action(decls, occs, output):
@@ -380,7 +389,8 @@ def check_log(cx, run, ctxname, expected, observed, targets):
             res.ev('path:target-record')
             if not enc_match(e['paths'], o.get('paths')):
                 ti = tix[(e['id'], e['inst'])]
-                if ti['kind'] == 'step' and len(ti['outs']) > 1 and \
+                if ti['kind'] in ('step', 'copy_files') and \
+                   len(ti['outs']) > 1 and \
                    isinstance(o.get('paths'), list) and \
                    len(o['paths']) == len(ti['outs']):
                     exps, gots = e['paths'], o['paths']
@@ -393,7 +403,7 @@ def check_log(cx, run, ctxname, expected, observed, targets):
                     wr = (ti.get('written') or [None])[min(
                         j, len(ti.get('written') or [None]) - 1)]
                     how = how_misplaced(ti['outs'][min(j, len(ti['outs']) - 1)],
-                                        gp)
+                                        gp, ti['dir'])
                     cx.violate(('path', 'output', ti['kind'], how),
                                [ti['id'], ti['inst'], j],
                                {'run': run, 'script': e['me'],
@@ -516,7 +526,8 @@ class PathModel:
             want = t['outs'][j]['exact']
             if got != want:
                 wr = (t.get('written') or [None] * (j + 1))[j]
-                how = how_misplaced(t['outs'][j], got) if got is not None \
+                how = how_misplaced(t['outs'][j], got, t['dir']) \
+                    if got is not None \
                     else 'outside-builddir'
                 cx.violate(('path', 'output', t['kind'], how),
                            [t['id'], t['inst'], j],
@@ -712,7 +723,7 @@ def check_exec(cx, pm, run, vlog, broken=()):
         if (t['id'], t['inst']) in broken:
             continue
         for s in t['srcs']:
-            if t['kind'] in ('copy', 'copy_default'):
+            if t['kind'] in NOT_RECORDED:
                 continue
             if seen.get(s, 0) < 1:
                 cx.violate(('path', 'input', t['kind'], 'never-read'), [s],
@@ -748,7 +759,8 @@ def check_disk(cx, pm, run, case, broken=()):
                         where = os.path.relpath(os.path.join(d, b), pm.bld)
                         break
                 wr = (t.get('written') or [None] * (j + 1))[j]
-                how = 'not-built' if where is None else how_misplaced(o, where)
+                how = 'not-built' if where is None else \
+                    how_misplaced(o, where, t['dir'])
                 cx.violate(('path', 'output', t['kind'], how),
                            [t['id'], t['inst'], j],
                            {'run': run, 'context': 'on-disk', 'kind': t['kind'],
@@ -757,17 +769,24 @@ def check_disk(cx, pm, run, case, broken=()):
                             'expected': o.get('exact', o.get('under')),
                             'got': where})
                 continue
-            if t['kind'] in ('copy', 'copy_default'):
+            if t['kind'] in ('copy', 'copy_default', 'copy_files', 'man'):
                 cx.res.ev('path:copy-content')
-                with open(found) as f:
-                    content = f.read()
-                want = case['files'][t['srcs'][0]]
+                with open(found, 'rb') as f:
+                    raw = f.read()
+                if t['kind'] == 'man':
+                    import gzip
+                    try:
+                        raw = gzip.decompress(raw)
+                    except (OSError, EOFError):
+                        pass
+                content = raw.decode('utf-8', 'replace')
+                want = case['files'][t['srcs'][min(j, len(t['srcs']) - 1)]]
                 if content != want:
                     cx.violate(('path', 'input', t['kind'], 'wrong-content'),
                                [t['id'], t['inst']],
                                {'run': run, 'context': 'on-disk',
                                 'kind': t['kind'], 'script_dir': t['dir'],
-                                'expected': t['srcs'][0],
+                                'expected': t['srcs'][min(j, len(t['srcs']) - 1)],
                                 'got': content[:100]})
 
 
